@@ -30,7 +30,8 @@ class Seam:
         self.sim = None
         self.fds = {}
         self.bufsize = 8192
-        self.crash_at = None  # (procname, 'before'|'after', k)
+        self.crash_at = []  # pending crash points: [role, 'before'|'after', k]
+        self.fired = []
         self.on_event = None  # callback(rec) for property-level observation
         self.installed = False
         self.events = []
@@ -41,7 +42,8 @@ class Seam:
         self.enabled = True
         self.fds.clear()
         self.bufsize = bufsize
-        self.crash_at = None
+        self.crash_at = []
+        self.fired = []
         self.on_event = None
         self.events = []
 
@@ -49,7 +51,7 @@ class Seam:
         self.enabled = False
         self.sim = None
         self.on_event = None
-        self.crash_at = None
+        self.crash_at = []
 
     # ---- helpers
     def inscope(self, p):
@@ -65,9 +67,11 @@ class Seam:
         return p.startswith(self.root + os.sep) and not p.startswith(self.logdir)
 
     def _site(self):
-        """innermost repo function (outside the file managers) on the stack"""
+        """the repo handler on the stack (handle_* / close_service / clean_*), else the innermost repo function
+        outside the file managers"""
         f = sys._getframe(2)
         fm = None
+        inner = None
         while f is not None:
             fn = f.f_code.co_filename
             if fn.startswith(self.repo):
@@ -75,9 +79,11 @@ class Seam:
                 if "file_manager" in fn:
                     fm = fm or name
                 else:
-                    return name, fm
+                    inner = inner or name
+                    if name.startswith("handle_") or name in ("close_service",) or name.startswith("clean_"):
+                        return name, fm
             f = f.f_back
-        return None, fm
+        return inner, fm
 
     def event(self, kind, path, n=None):
         sim = self.sim
@@ -88,26 +94,35 @@ class Seam:
             raise SimCrash("void")
         if not p.alive:
             raise SimCrash("dead process")
-        k = p.disk_k
+        k = sim.role_k.get(p.role, 0)
         rel = os.path.relpath(os.fspath(path), self.root)
         site, fm = self._site()
-        rec = dict(proc=p.name, k=k, kind=kind, path=rel, n=n, site=site, fm=fm, conn=CONN.get(), t=round(sim.loop._vt, 6))
-        ca = self.crash_at
-        if ca is not None and ca[0] == p.name and ca[1] == "before" and ca[2] == k:
+        rec = dict(proc=p.name, role=p.role, k=k, kind=kind, path=rel, n=n, site=site, fm=fm, conn=CONN.get(), t=round(sim.loop._vt, 6))
+        if self._armed(p.role, "before", k):
             rec["crash"] = "before"
             self._record(rec, applied=False)
             sim.kill(p)
             raise SimCrash(f"before {k} {kind} {rel}")
-        p.disk_k = k + 1
+        sim.role_k[p.role] = k + 1
         rec["_p"] = p
         return rec
+
+    def _armed(self, role, when, k):
+        ca = self.crash_at
+        if not ca:
+            return False
+        for spec in ca:
+            if spec[0] == role and spec[1] == when and spec[2] == k:
+                ca.remove(spec)
+                self.fired.append(spec)
+                return True
+        return False
 
     def after(self, rec):
         if rec is None:
             return
         p = rec.pop("_p")
-        ca = self.crash_at
-        if ca is not None and ca[0] == p.name and ca[1] == "after" and ca[2] == rec["k"]:
+        if self._armed(p.role, "after", rec["k"]):
             rec["crash"] = "after"
             self._record(rec, applied=True)
             self.sim.kill(p)
@@ -120,7 +135,7 @@ class Seam:
         sim.count("disk_event")
         path = rec["path"].split(os.sep)
         norm = "/".join(("<sid>" if len(x) == 64 else x) for x in path)
-        sim.log.append(("disk", rec["proc"], rec["k"], rec["kind"], norm, rec["n"], rec.get("crash")))
+        sim.log.append(("disk", rec["role"], rec["k"], rec["kind"], norm, rec["n"], rec.get("crash")))
         rec["applied"] = applied
         self.events.append(rec)
         if self.on_event is not None:
